@@ -19,9 +19,9 @@ ASSUMPTIONS = ['citation resolution is observed through Proof.find_item; if the 
                'reference yield of assume / implies_intr / implies_elim / identity substitution computed on shadows',
                'propositional validity by truth table (vf.holmodel)']
 REQUIRED = {'quick': {'accepted': 500, 'rejected': 500, 'L1_citations_checked': 300, 'L2_yields_checked': 300,
-                      'ext_cases': 100, 'ext_admitted_as_proved': 5, 'gaps_reports_checked': 100},
+                      'ext_cases': 100, 'ext_admitted_as_proved': 5, 'gaps_reports_checked': 100, 'exhaustive_nested_done': 1},
             'thorough': {'accepted': 5000, 'rejected': 5000, 'L1_citations_checked': 3000, 'L2_yields_checked': 3000,
-                         'ext_cases': 1000, 'ext_admitted_as_proved': 50, 'gaps_reports_checked': 1000}}
+                         'ext_cases': 1000, 'ext_admitted_as_proved': 50, 'gaps_reports_checked': 1000, 'exhaustive_nested_done': 1}}
 SHARD_TIMEOUT = {'quick': 600, 'thorough': 7200}
 
 BOOL = S.BOOL
@@ -44,11 +44,11 @@ CLAIMS = {'|-B': ((), 'B'), 'A|-B': (('A',), 'B'), 'A,A->B|-B': (('A', 'A->B'), 
 
 def shards(tier, seed):
     if tier == 'quick':
-        return ([{'kind': 'exh', 'n': 1, 'part': 0, 'parts': 1}, {'kind': 'exh', 'n': 2, 'part': 0, 'parts': 1}] +
+        return ([{'kind': 'exh', 'n': 1, 'part': 0, 'parts': 1}, {'kind': 'exh', 'n': 2, 'part': 0, 'parts': 1}, {'kind': 'nested'}] +
                 [{'kind': 'exh3_sample', 'count': 2500, 'i': i} for i in range(6)] +
                 [{'kind': 'random', 'count': 700, 'i': i} for i in range(6)] +
                 [{'kind': 'ext', 'count': 400, 'i': i} for i in range(2)])
-    return ([{'kind': 'exh', 'n': 1, 'part': 0, 'parts': 1}, {'kind': 'exh', 'n': 2, 'part': 0, 'parts': 1}] +
+    return ([{'kind': 'exh', 'n': 1, 'part': 0, 'parts': 1}, {'kind': 'exh', 'n': 2, 'part': 0, 'parts': 1}, {'kind': 'nested'}] +
             [{'kind': 'exh', 'n': 3, 'part': p, 'parts': 32} for p in range(32)] +
             [{'kind': 'random', 'count': 15000, 'i': i} for i in range(12)] +
             [{'kind': 'ext', 'count': 6000, 'i': i} for i in range(4)])
@@ -349,6 +349,22 @@ def exh_specs(n):
             yield [dict(c, id=(idmap[i],)) for i, c in enumerate(combo)]
 
 
+def nested_specs():
+    """systematic visibility space: two blocks and a top-level item; the citing items (identity substitution) cite
+    every id present in the tree, from inside the second block and from the top level"""
+    ids = [(0,), (0, 0), (0, 1), (1,), (1, 0), (1, 1), (2,)]
+    for cite_inner in ids:
+        for cite_inner2 in ids:
+            for cite_top in ids:
+                for first_rule in ('assume', 'sorry'):
+                    blk0 = [{'rule': 'assume', 'arg': 'A', 'id': (0, 0)} if first_rule == 'assume' else {'rule': 'sorry', 'th': '|-B', 'id': (0, 0)},
+                            {'rule': 'substitution', 'prevs': [(0, 0)], 'id': (0, 1)}]
+                    blk1 = [{'rule': 'substitution', 'prevs': [cite_inner], 'id': (1, 0)},
+                            {'rule': 'substitution', 'prevs': [cite_inner2], 'id': (1, 1)}]
+                    yield [{'rule': 'subproof', 'sub': blk0, 'id': (0,)}, {'rule': 'subproof', 'sub': blk1, 'id': (1,)},
+                           {'rule': 'substitution', 'prevs': [cite_top], 'id': (2,)}]
+
+
 def rand_spec(rng):
     """random nested proof, mostly sensible, then perturbed"""
     forms = ['A', 'B', 'A->B', 'B->A']
@@ -534,6 +550,10 @@ def run_shard(ctx, spec):
                 continue
             do_spec(ctx, sp, 'exh', sample=(k % 5003 == 17))
         ctx.count('exhaustive_n%d_parts_done' % spec['n'])
+    elif kind == 'nested':
+        for k, sp in enumerate(nested_specs()):
+            do_spec(ctx, sp, 'nested', sample=(k == 5))
+        ctx.count('exhaustive_nested_done')
     elif kind == 'exh3_sample':
         ids = [(i,) for i in range(3)]
         opts = item_options(3, ids)
